@@ -123,7 +123,8 @@ def model_expr(case: Dict[str, Any], res: P.CaseResult, events: List[Tuple[int, 
     maxrs = " ".join(f"| {i}%nat => {kind_of(op)[1]}%nat" for i, op in enumerate(case["ops"]))
     lu0 = res.initial["meta"]["last_updated_ms"]
     cfgs = "{| cas := %s; lockkind := %s |}" % ("true" if case.get("backend") == "s3cas" else "false",
-                                               "GrantAll" if case.get("lock") == "grant_all" else "Excl")
+                                               "GrantAll" if case.get("lock") == "grant_all" else
+                                               ("Lease" if case.get("backend") == "s3cas" else "Excl"))
     evs = "[" + "; ".join(f"{{| e_actor := {ai}%nat; e_kind := {_nat_args(k)} |}}" for ai, k in events) + "]"
     return (f"match run_strict {cfgs} (init_world {{| m_ops := []; m_cur := 1; m_lu := {lu0} |}} "
             f"(fun a => match a with {kinds} | _ => KKeep end) (fun a => match a with {maxrs} | _ => 1%nat end)) {evs} 0%nat with "
@@ -147,9 +148,10 @@ def serial_oracle(case: Dict[str, Any], res: P.CaseResult) -> Optional[str]:
     ops = _fix_case(case)["ops"]
     init = res.initial
     # flip order as observed: successful pointer writes during actor runs
-    flips = [e["actor"] for e in res.log if e["op"] in ("write_file", "write_file_cas") and P.path_class(e["path"]) == "hint" and e["result"] == "ok"]
-    acked = [a for a, (st, _d) in res.outcomes.items() if st == "ok"]
-    noop = [a for a, (st, d) in res.outcomes.items() if st == "ok" and d == "noop"]
+    flips = [e["actor"] for e in res.log if e["op"] in ("write_file", "write_file_cas") and P.path_class(e["path"]) == "hint" and e["result"] == "ok"
+             and e["actor"].startswith("A")]
+    acked = [a for a, (st, _d) in res.outcomes.items() if st == "ok" and a.startswith("A")]
+    noop = [a for a, (st, d) in res.outcomes.items() if st == "ok" and d == "noop" and a.startswith("A")]
     if sorted(flips) != sorted(a for a in acked if a not in noop):
         return f"acknowledged commits {sorted(acked)} != pointer flips {flips} (a success without a flip, a flip without success, or a double flip)"
     # reference replay over (snapshot list, current, rows per snapshot)
@@ -198,6 +200,8 @@ def serial_oracle(case: Dict[str, Any], res: P.CaseResult) -> Optional[str]:
         return f"final snapshot count {len(res.final['snapshot_order'])} != serial replay {len(snaps)} (flips {flips})"
     # raised commits are not reflected: no row of a raised append, and the chain is linear with increasing sequence numbers
     for a, (st, _d) in res.outcomes.items():
+        if not a.startswith("A"):
+            continue
         op = ops[int(a[1:])]
         if st != "ok" and op["kind"] == "append" and any(r["x"] in got_rows for r in op["rows"]):
             return f"commit of {a} raised but its rows are in the table"
@@ -235,7 +239,8 @@ def check_runs(ctx, name: str, runs: List[Tuple[Dict[str, Any], Any, P.CaseResul
             ctx.violation(f"not-serializable:{case.get('clock', 'tick')}:{'+'.join(o['kind'] + ('-' + o['which'] if 'which' in o else '') for o in case['ops'])}",
                           why, {"case": _case_json(case), "deviations": list(dev), "schedule": res.schedule, "outcomes": res.outcomes})
         try:
-            events, vids, _notes = P.project(res, len(case["ops"]), cas=(case.get("backend") == "s3cas"))
+            events, vids, _notes = P.project(res, len(case["ops"]), cas=(case.get("backend") == "s3cas"),
+                                            lease=(case.get("backend") == "s3cas" and case.get("lock", "real") == "real"))
         except P.Nonconforming as e:
             bad.append({"case": _case_json(case), "schedule": res.schedule, "nonconforming": str(e)})
             continue
